@@ -45,21 +45,25 @@ def equations():
     def swap(rope, frm, to):
         return [Hole(c.label.replace('.' + frm, '.' + to)) if isinstance(c, Hole) and c.label.endswith('.' + frm) else c for c in rope]
 
-    def eq(label, a, b):
+    def eq(label, a, b, native=None):
         bad = a[0] != 'ok' or b[0] != 'ok' or a[1] != b[1]
-        out.append((label, bad, {'left': show_rope(a[1]) if a[0] == 'ok' else a[1], 'right': show_rope(b[1]) if b[0] == 'ok' else b[1]}))
+        out.append((label, bad, {'left': show_rope(a[1]) if a[0] == 'ok' else a[1], 'right': show_rope(b[1]) if b[0] == 'ok' else b[1]}, native))
 
     p1, p2 = one('P1<T>', 'inline', ['T']), one('P2<T>', 'inline', ['T'])
     eq('inlining a field = referring to it by name, with the name replaced by the inline form (P2 vs P1)',
-       p2, ('ok', swap(p1[1], 'name', 'inline')) if p1[0] == 'ok' else p1)
-    eq('`as = "Vec<T>"` on a field = the field typed Vec<T> (P6 vs P7)', one('P6<T>', 'inline', ['T']), one('P7<T>', 'inline', ['T']))
-    eq('`as = "Vec<T>"` on a variant = the variant holding Vec<T> (P9 vs P10)', one('P9<T>', 'inline', ['T']), one('P10<T>', 'inline', ['T']))
+       p2, ('ok', swap(p1[1], 'name', 'inline')) if p1[0] == 'ok' else p1,
+       native=lambda n: (n['P2', 'inline'], n['P1', 'inline'].replace('Arg1', '{ q: number, }')))
+    eq('`as = "Vec<T>"` on a field = the field typed Vec<T> (P6 vs P7)', one('P6<T>', 'inline', ['T']), one('P7<T>', 'inline', ['T']),
+       native=lambda n: (n['P6', 'inline'], n['P7', 'inline']))
+    eq('`as = "Vec<T>"` on a variant = the variant holding Vec<T> (P9 vs P10)', one('P9<T>', 'inline', ['T']), one('P10<T>', 'inline', ['T']),
+       native=lambda n: (n['P9', 'inline'], n['P10', 'inline']))
     eq('`as = "Vec<T>"` on the container = the inline form of Vec<T> (P11)', one('P11<T>', 'inline', ['T']), one('Vec<T>', 'inline', ['T']))
     for name, item in G['corpus'].items():
         ty = c07.type_text(name, item)
         inl, dc, idt = one(ty, 'inline', item['generics']), one(ty, 'decl_concrete', item['generics']), one(ty, 'ident', item['generics'])
         if inl[0] == 'ok' and idt[0] == 'ok':
-            eq(f'decl_concrete() = `type N = inline();` ({name})', dc, ('ok', o('type ') + idt[1] + o(' = ') + inl[1] + o(';')))
+            eq(f'decl_concrete() = `type N = inline();` ({name})', dc, ('ok', o('type ') + idt[1] + o(' = ') + inl[1] + o(';')),
+               native=(lambda nm: (lambda n: (n[nm, 'decl_concrete'], 'type ' + n[nm, 'decl_concrete'].split(' ')[1] + ' = ' + n[nm, 'inline'] + ';')))(name))
     # nested: an inlined generic struct inside a struct, flattened generic struct (G6): the body of Inner<T> appears verbatim
     inner = one('Inner<T>', 'inline', ['T'])
     g6 = one('G6<T>', 'inline', ['T'])
@@ -67,6 +71,20 @@ def equations():
         body = inner[1][2:-2]           # `{ ` .. ` }`
         want = o('{ k: boolean, a: ') + inner[1] + o(', ') + body + o(' }')
         eq('inline + flatten of the same generic struct: `a: <inline>` and the merged properties (G6)', g6, ('ok', want))
+    # flattened derive-generated enums next to flattened structs: a union stays one parenthesised unit, objects are merged
+    en1, en2 = one('En1<T>', 'inline', ['T']), one('En2<T>', 'inline', ['T'])
+    if all(x[0] == 'ok' for x in (en1, en2, inner)):
+        ibody = inner[1][2:-2]
+        eq('own field + flattened single-variant enum + flattened struct (PF1)', one('PF1<T>', 'inline', ['T']),
+           ('ok', o('{ id: boolean, } & (') + en1[1] + o(') & ') + inner[1]),
+           native=lambda n: (n['PF1', 'inline'], '{ id: boolean, } & (' + n['En1', 'inline'] + ') & ' + n['Inner', 'inline']))
+        eq('flattened two-variant enum + flattened struct (PF2)', one('PF2<T>', 'inline', ['T']), ('ok', o('(') + en2[1] + o(') & ') + inner[1]),
+           native=lambda n: (n['PF2', 'inline'], '(' + n['En2', 'inline'] + ') & ' + n['Inner', 'inline']))
+        eq('own field + flattened struct + flattened enum (PF3)', one('PF3<T>', 'inline', ['T']),
+           ('ok', o('{ id: boolean, ') + ibody + o(' } & (') + en1[1] + o(')')),
+           native=lambda n: (n['PF3', 'inline'], '{ id: boolean, ' + n['Inner', 'inline'][2:-2] + ' } & (' + n['En1', 'inline'] + ')'))
+        eq('inlined enum / struct fields and a by-name generic enum (PF4)', one('PF4<T>', 'inline', ['T']),
+           ('ok', o('{ e: ') + en1[1] + o(', s: ') + inner[1] + o(', n: En2<') + [Hole('T.name')] + o('>, }')))
     return out
 
 
@@ -286,9 +304,25 @@ def main():
                      if n.startswith('P') or n in ('Inner', 'G6')]
     rep.configs = ['ts-rs + ts-rs-macros: default features (corpus expanded by the real derive; MIR of the expansion)']
     try:
-        for label, bad, det in equations():
+        eqs = equations()
+        nat = None
+        if any(bad for _, bad, _, _ in eqs):
+            nat_raw = c07.native_probe(rep)           # the corpus compiled with the real derive, at the arguments Arg1 / Arg2
+            nat = {k: v[1] for k, v in nat_raw.items() if v[0] == 'ok'}
+        for label, bad, det, native in eqs:
             rep.obligations += 1
             if bad:
+                confirmed = None
+                if native is not None and nat is not None:
+                    try:
+                        l_, r_ = native(nat)
+                        confirmed = l_ != r_
+                        det = dict(det, native_left=l_, native_right=r_)
+                    except KeyError:
+                        confirmed = None
+                if confirmed is False:
+                    rep.inconclusive.append(f'engine finding does not reproduce natively: {label}: {det}')
+                    continue
                 rep.violations.append({'what': f'presentation equation violated: {label}: {det}', 'witness': det, 'key': label[:50]})
             else:
                 rep.discharged += 1
